@@ -136,16 +136,26 @@ struct Doc<E> {
 }
 
 fn check_doc<E: El>(doc: &Doc<E>, cs: &mut Case) {
-    for transport in 0..4 {
-        let name = ["from_str", "from_slice", "from_reader", "from_value"][transport];
+    for transport in 0..5 {
+        let name = ["from_str", "from_slice", "from_reader", "from_value", "deserialize_in_place"][transport];
         let r: Result<Result<TooDee<E>, String>, String> = guarded(|| match transport {
             0 => serde_json::from_str::<TooDee<E>>(&doc.text).map_err(|e| e.to_string()),
             1 => serde_json::from_slice::<TooDee<E>>(doc.text.as_bytes()).map_err(|e| e.to_string()),
             2 => serde_json::from_reader::<_, TooDee<E>>(std::io::Cursor::new(doc.text.as_bytes())).map_err(|e| e.to_string()),
-            _ => match serde_json::from_str::<Value>(&doc.text) {
+            3 => match serde_json::from_str::<Value>(&doc.text) {
                 Ok(v) => serde_json::from_value::<TooDee<E>>(v).map_err(|e| e.to_string()),
                 Err(e) => Err(format!("(document is not a JSON value: {})", e)),
             },
+            _ => {
+                // Deserialize::deserialize_in_place into an array that already holds six other cells: whatever is
+                // accepted must come from the document, not from what was there before
+                let mut place: TooDee<E> = TooDee::from_vec(2, 3, (0..6).map(|i| E::make(900 + i)).collect());
+                let mut de = serde_json::Deserializer::from_str(&doc.text);
+                match serde::Deserialize::deserialize_in_place(&mut de, &mut place) {
+                    Ok(()) => de.end().map(|_| place).map_err(|e| e.to_string()),
+                    Err(e) => Err(e.to_string()),
+                }
+            }
         });
         match r {
             Err(p) => {
